@@ -176,7 +176,9 @@ def expr(r, d=0, subq=True):
     if x == 14:
         return "(" + e() + ")"
     if x == 15:
-        return r.pick(["NOT ", "-", "not "]) + atom(r)
+        a = atom(r)
+        op = r.pick(["NOT ", "-", "not "])
+        return op + ("(" + a + ")" if a.startswith("-") else a)     # never "--": that starts a comment
     if x == 16:
         return r.pick(FUNCS1) + "(" + e() + ")"
     if x == 17:
@@ -481,7 +483,7 @@ def order_elem(r, d):
     if r.p(1, 8):
         s += r.pick([" NULLS FIRST", " NULLS LAST"])
     if r.p(1, 10):
-        s += " COLLATE 'en'"
+        s += " COLLATE " + r.pick(["'en'", "'en'", "'tr'", "'x\\ny'"])
     return s
 
 
@@ -564,7 +566,7 @@ def select_tail(r, outfile=True, s_then_f=True, fmt_ok=True):
     The flags switch off the forms the parser does not take after a parenthesised last member /
     after an INTERSECT-EXCEPT chain."""
     f = lambda: "FORMAT " + r.pick(FORMATS)
-    o = lambda: "INTO OUTFILE " + r.pick(["'f.csv'", "'out.tsv'", "'o.gz'"])
+    o = lambda: "INTO OUTFILE " + r.pick(["'f.csv'", "'out.tsv'", "'o.gz'", "'dir/f.csv'", "'a\\tb.tsv'", "'two\\nlines'"])
     s = lambda: settings_clause(r)
     forms = [(lambda: "", True)] * 6 + [
         (f, fmt_ok), (s, True), (o, outfile),
